@@ -679,6 +679,24 @@ func vxstub_os_Readlink(name string) (string, error) {
 }
 
 // syscall.Rename returns the bare errno.
+// os.Rename differs from rename(2): it refuses an existing directory as the target (EEXIST) before calling it.
+func vxstub_os_Rename(from, to string) error {
+	fs := vxfs
+	if r := fs.resolve(to, false); r.errno == 0 && r.in != nil && r.in.kind == vxKDir {
+		if o := fs.resolve(from, false); o.errno != 0 || o.in != r.in {
+			i := fs.begin(vxFSCall{op: "rename", path: from, path2: to, mut: true})
+			return fs.fail(i, vxLinkErr("rename", from, to, vxEEXIST))
+		}
+	}
+	if err := vxstub_syscall_Rename(from, to); err != nil {
+		if e, ok := err.(syscall.Errno); ok {
+			return vxLinkErr("rename", from, to, e)
+		}
+		return err
+	}
+	return nil
+}
+
 func vxstub_syscall_Rename(from, to string) error {
 	fs := vxfs
 	i := fs.begin(vxFSCall{op: "rename", path: from, path2: to, mut: true})
@@ -693,6 +711,17 @@ func vxstub_syscall_Rename(from, to string) error {
 		return fs.fail(i, vxEINVAL)
 	}
 	r := fs.resolve(to, false)
+	// rename(2): a directory cannot be moved into itself or one of its own subdirectories (EINVAL)
+	if o.in.kind == vxKDir {
+		for p := r.parent; p != nil; p = p.parent {
+			if p == o.in {
+				return fs.fail(i, vxEINVAL)
+			}
+			if p.parent == p {
+				break // the model's root is its own parent
+			}
+		}
+	}
 	if r.errno != 0 {
 		if r.errno != vxENOENT || r.parent == nil {
 			return fs.fail(i, r.errno)
